@@ -438,6 +438,52 @@ theorem mime_match_facts :
   · intro v item h0 h1 h2 h3 h4
     simp [mimeMatches, h0, h1, h2, h3, h4, List.isPerm_iff]
 
+/-- On well-formed media-type text (`type/subtype; p1; p2 …` as `parse_accept_header` rebuilds it:
+lower-case pieces free of `/`, `;` and blanks) the specificity tuple is
+`(type ≠ *, subtype ≠ *, True per parameter …)`. -/
+theorem mime_spec_text (t s : Str) (ps : List Str) (ht : NoDelim t) (hs : NoDelim s)
+    (hps : ∀ p ∈ ps, NoDelim p) :
+    mimeSpec (renderMime t s ps) = (t != star) :: (s != star) :: ps.map (· != star) := by
+  simp [mimeSpec, mimeSplit_render t s ps ht hs hps]
+
+/-- On well-formed text, a concrete range `t/s;ps` matches a concrete offer `t'/s';ps'` exactly when
+type and subtype agree and the parameters agree as multisets (order-insensitive). -/
+theorem mime_match_text (t s t' s' : Str) (ps ps' : List Str)
+    (ht : NoDelim t) (hs : NoDelim s) (hps : ∀ p ∈ ps, NoDelim p)
+    (ht' : NoDelim t') (hs' : NoDelim s') (hps' : ∀ p ∈ ps', NoDelim p)
+    (lt : IsLower t) (ls : IsLower s) (lps : ∀ p ∈ ps, IsLower p)
+    (lt' : IsLower t') (ls' : IsLower s') (lps' : ∀ p ∈ ps', IsLower p)
+    (n1 : t ≠ star) (n2 : s ≠ star) (n3 : t' ≠ star) (n4 : s' ≠ star) :
+    mimeMatches (renderMime t' s' ps') (renderMime t s ps) = true ↔
+      t = t' ∧ s = s' ∧ ps.Perm ps' := by
+  have hi := mimeNorm_render t s ps ht hs hps lt ls lps
+  have hv := mimeNorm_render t' s' ps' ht' hs' hps' lt' ls' lps'
+  have := mime_match_facts.2.2.2.2 (renderMime t' s' ps') (renderMime t s ps)
+    (hasSlash_render t s ps) (by rw [hi]; exact n1) (by rw [hi]; exact n2)
+    (by rw [hv]; exact n3) (by rw [hv]; exact n4)
+  rw [this, hi, hv]
+
+/-- ... a `t/*` range matches exactly the offers of type `t`, whatever their parameters. -/
+theorem mime_match_text_subtype_wildcard (t t' s' : Str) (ps' : List Str)
+    (ht : NoDelim t) (ht' : NoDelim t') (hs' : NoDelim s') (hps' : ∀ p ∈ ps', NoDelim p)
+    (lt : IsLower t) (lt' : IsLower t') (ls' : IsLower s') (lps' : ∀ p ∈ ps', IsLower p)
+    (n1 : t ≠ star) (n3 : t' ≠ star) :
+    mimeMatches (renderMime t' s' ps') (renderMime t star []) = true ↔ t = t' := by
+  have hstar : NoDelim star := by
+    intro c hc
+    have : c = '*' := by simpa [star] using hc
+    subst this
+    exact ⟨by decide, by decide, by decide⟩
+  have lstar : IsLower star := by decide
+  have hi := mimeNorm_render t star [] ht hstar (by simp) lt lstar (by simp)
+  have hv := mimeNorm_render t' s' ps' ht' hs' hps' lt' ls' lps'
+  unfold mimeMatches
+  simp only [hasSlash_render, hi, hv, Bool.not_true, Bool.false_eq_true, ↓reduceIte]
+  simp [n1, n3]
+
+example : renderMime "text".toList "html".toList ["level=1".toList] = "text/html; level=1".toList ∧
+    mimeMatches "text/html; level=1".toList "text/html; level=1".toList = true := by decide
+
 /-- the specificity order of media ranges: `*/*` < `type/*` < `type/subtype` < with parameters -/
 theorem mime_spec_order :
     mimeSpec "*/*".toList = [false, false] ∧ mimeSpec "text/*".toList = [true, false] ∧
